@@ -256,7 +256,9 @@ func runCheck(prop, tier, repo, evdir string, verbose bool) int {
 			sem <- struct{}{}
 			defer func() { <-sem }()
 			t1 := time.Now()
-			results[i].vs = Solve(f, SolveOpts{TimeoutMs: timeout, WorkDir: work, Cross: tier == "thorough"})
+			results[i].vs = Solve(f, SolveOpts{TimeoutMs: timeout, WorkDir: work, Cross: tier == "thorough", NoRetry: func(n string) bool {
+				return matchKnown(known, prop, n) != nil || matchNotClaimed(notClaimed, prop, n) != nil
+			}})
 			if os.Getenv("GCV_TIMING") != "" {
 				fmt.Printf("timing %6.1fs %s (%d obligations)\n", time.Since(t1).Seconds(), f.Name, len(f.Obligs))
 			}
